@@ -117,6 +117,13 @@ def resolve(doc: Any, ref: str) -> Tuple[bool, Any]:
     return True, cur
 
 
+OTHER_ENDPOINT_ONLY = 'only.on.the.other.endpoint'
+
+
+def _other_endpoint_method(zz_only_on_the_other_endpoint: int, flag: bool = False) -> int:
+    return 0
+
+
 def endpoint_path(path: str, prefix: str) -> str:
     """the harness' own notion of 'endpoint path': base path, joined with the endpoint prefix by exactly one slash"""
     return path if not prefix else path.rstrip('/') + '/' + prefix.lstrip('/')
@@ -435,6 +442,13 @@ class C16(Check):
             methods = [m for m in reg.values() if only is None or (m.method is only['fn'] and m.name == only['exposed'])]
             mm.setdefault(pfx, [])
             mm[pfx] += methods
+        if spec['kind'] == 'openrpc' and spec.get('_rpc_other_endpoint') and only is None:
+            # the application serves a second endpoint besides the one the OpenRPC document is about: a different method under a name
+            # the documented endpoint also uses, and one under a name of its own
+            other = pjrpc.server.MethodRegistry()
+            other.add(_other_endpoint_method, spec['_rpc_other_endpoint'])
+            other.add(_other_endpoint_method, OTHER_ENDPOINT_ONLY)
+            mm['/sub'] = list(other.values())
         return sp.schema(path=spec['path'], methods_map=mm)
 
     def _entry(self, spec: Dict[str, Any], doc: Dict[str, Any], b: Dict[str, Any]) -> Tuple[Any, int]:
@@ -449,11 +463,13 @@ class C16(Check):
     def run_case(self, spec: Any) -> Outcome:
         is_rpc = spec['kind'] == 'openrpc'
         if is_rpc:
-            spec = {**spec, 'endpoints': 1, 'extractors': spec['extractors'][:1]}
+            spec = {**spec, 'endpoints': 1, 'extractors': spec['extractors'][:1], '_rpc_other_endpoint': spec['endpoints'] == 2}
         late = bool(spec.get('late_error'))
         if late:
             spec = {**spec, 'methods': [{**m, '_late_error': True} for m in spec['methods']]}
         registries, built, user_objects = self._build_methods(spec)
+        if spec.get('_rpc_other_endpoint'):
+            spec['_rpc_other_endpoint'] = built[0]['exposed']
         sp, sp_kwargs = self._make_spec(spec)
         if late:
             # the application's error classes come into being AFTER the specification object (app.py builds the spec, the method
@@ -512,9 +528,15 @@ class C16(Check):
                 # (4) completeness
                 names = [b['exposed'] for b in built]
                 if is_rpc:
-                    listed = [m.get('name') for m in plain.get('methods', [])]
+                    # whether the methods of ANOTHER endpoint belong into this document is left open (OpenRPC has no endpoint paths); a name
+                    # is described once, and it is the documented endpoint's method that is described
+                    listed = [m.get('name') for m in plain.get('methods', []) if m.get('name') != OTHER_ENDPOINT_ONLY]
                     if sorted(listed) != sorted(names):
                         discs.append(Disc("C16/methods-listed", f"document lists {listed}, registered {names} | {where}"))
+                    elif spec.get('_rpc_other_endpoint') and 'zz_only_on_the_other_endpoint' in json.dumps(
+                            [m for m in plain.get('methods', []) if m.get('name') == spec['_rpc_other_endpoint']]):
+                        discs.append(Disc("C16/methods-listed/entry-describes-another-endpoints-method",
+                                          f"{spec['_rpc_other_endpoint']!r} is described with the parameters of the other endpoint's method | {where}"))
                 else:
                     want_keys = set()
                     for b in built:
@@ -595,6 +617,8 @@ class C16(Check):
         classes = [f"kind/{spec['kind']}", 'extractors/' + '+'.join(spec['extractors']), f"endpoints/{spec['endpoints']}"]
         if len(built) >= 2:
             classes.append('methods>=2')
+        if spec.get('_rpc_other_endpoint'):
+            classes.append('openrpc/application-with-another-endpoint')
         if spec['generations'] >= 2:
             classes.append('generations>=2')
         if spec.get('naming', 'plain') != 'plain' and len([m for m in spec['methods'] if m['flavour'] != 'view']) >= 2:
